@@ -29,7 +29,8 @@ class C03(Prop):
     technique = "Lean 4 proof (invariants by induction over all event histories of the demodulator's control skeleton) + trace-inclusion correspondence with the real demodulator + end-to-end channel/history exploration with a payload oracle"
     rule = ("transmissions of the repository's transmitter (random audio -> codec2 payloads, random callsigns, CAN) x gain 0.3..3.5 x dc +-0.03 x "
             "noise sigma 0..0.005 x sub-sample delay x +-200 ppm (windowed-sinc resampling) x lead-in history {none, zeros, noise, constant, tone, "
-            "earlier transmission} x lengths 20..300 frames; oracle from the transmitted payload list; distinct = distinct parameter tuples; "
+            "earlier transmission} x lengths 20..300 frames; one run in three with a second demodulator instance receiving looped end-of-transmission "
+            "bursts interleaved in the same process; oracle from the transmitted payload list; distinct = distinct parameter tuples; "
             "non-trivial = steady reception reached with at least 10 frames following")
 
     def setup_drivers(self):
@@ -63,6 +64,9 @@ class C03(Prop):
                 if k >= n:
                     # corners of the envelope held for a whole 12 s transmission: clock error at its limits, amplitude at both ends
                     p.update(gain=[300, 3500, 300][trial], ppm=[200, -200, -200][trial], sigma=rng.choice([0, 20]), lead=rng.choice([0, 1]), leadn=rng.choice([0, 1920]))
+                if trial == 2:
+                    p["app"] = 3        # a second demodulator instance runs interleaved in the same process (shared function-local statics)
+                    ctx.stat("rx:runs-with-second-instance")
                 pre = []
                 if rng.random() < 0.2 and k < n:
                     a2 = [rng.randrange(-8000, 8000) for _ in range(320 * 6)]
